@@ -33,6 +33,31 @@ def cfg_pack():
     return c
 
 
+def cfg_tree():
+    """A mailbox `a` holding flagged messages with a child `a/b`: DELETE a empties it and keeps it as a \\Noselect placeholder."""
+    from .. import msgs, templates
+
+    def setup(w, s):
+        templates.must_ok(s, "CREATE a")
+        templates.must_ok(s, "CREATE a/b")
+        templates.append(s, "INBOX", "m1", "", n=1)
+        templates.append(s, "a", "p1", "\\Flagged \\Answered", n=11)
+        templates.append(s, "a", "p2", "\\Seen \\Deleted kw", n=12)
+
+    tmpl = templates.build("c13-tree", setup)
+    init = {"INBOX": [(1, "m1", set(), msgs.idate_epoch(1))], "a/b": [],
+            "a": [(1, "p1", {"\\Flagged", "\\Answered"}, msgs.idate_epoch(11)), (2, "p2", {"\\Seen", "\\Deleted", "kw"}, msgs.idate_epoch(12))]}
+    return {"prop": PROP, "name": "c13-tree", "template": tmpl, "init": init, "mode": "new", "driver": "h", "loopopts": {},
+            "prelude": [{"s": "A", "op": "select", "m": "INBOX"}]}
+
+
+def alphabet_tree(tier):
+    A = "A"
+    return [{"s": A, "op": "delete", "m": "a"}, {"s": A, "op": "create", "m": "a"}, {"s": A, "op": "select", "m": "a"}, {"s": A, "op": "select", "m": "INBOX"},
+            {"s": "env", "op": "deliver", "m": "a", "unseen": True}, {"s": "env", "op": "deliver", "m": "a", "unseen": False}, {"s": A, "op": "noop"},
+            {"s": A, "op": "rename", "m": "INBOX", "to": "old"}, {"s": "env", "op": "deliver", "m": "INBOX", "unseen": False}, {"s": "env", "op": "restart"}]
+
+
 def alphabet(tier):
     A, B = "A", "B"
     ev = [
@@ -122,6 +147,9 @@ def run(tier, seed, jobs):
              {"s": "env", "op": "deliver", "m": "INBOX", "unseen": True}, {"s": "A", "op": "noop"}, {"s": "env", "op": "poll", "dt": 21.0},
              {"s": "env", "op": "latent", "m": "INBOX", "unseen": False, "then": {"s": "A", "op": "store", "set": "1", "mode": "+", "flags": "\\Flagged"}}]
     plans.append({"cfg_ref": ("vf.props.c13", "cfg_pack", []), "alphabet": packa, "depth": 4 if tier == "quick" else 5, "label": "INBOX(3), pack threshold 2: deliveries around a pack"})
+    # commands that remove every message at once (DELETE to a placeholder, RENAME INBOX) and a delivery that reuses the numbers
+    plans.append({"cfg_ref": ("vf.props.c13", "cfg_tree", []), "alphabet": alphabet_tree(tier), "depth": 4 if tier == "quick" else 5,
+                  "label": "a(2 flagged) with child a/b: DELETE a / CREATE a / RENAME INBOX, then deliveries that reuse the freed numbers"})
     res = run_h(PROP, RULES, plans, ("C13", "C04"), jobs, seed,
                  ["the delivery agent writes message max+1, optionally appends it to `unseen` preserving every other line, and always "
                   "advances the folder mtime (the premise of the property); a `tick` advances the mtime only",
